@@ -35,7 +35,7 @@ func RunInit(args []string, opts GlobalOptions) error {
 	if err := os.MkdirAll(target, 0755); err != nil {
 		return err
 	}
-	plansPath := filepath.Join(target, plansFileName)
+	plansPath := getEventsPath(target)
 	lockPath := filepath.Join(target, "lock")
 	if err := ensureFileExists(plansPath, 0644); err != nil {
 		return err
